@@ -308,7 +308,7 @@ static void session(vh::Rng& r, int integ, bool optionClass = false, bool infCla
 // with attemptDAECore / stepLoop / handOut of SimbodyModel/C21.lean.
 #include "SimTKcommon/internal/SystemGuts.h"
 namespace orc {
-struct Call { char kind; double t; bool dontThrow, ok; double q0, q1, u0, u1; };
+struct Call { char kind; double t; bool dontThrow, ok; double q0, q1, u0, u1; bool inf = false, force = false; };
 struct Ctl { std::vector<Call> log; vh::Rng* rng = nullptr; double pFailStep = 0, pFailThrow = 0; bool armed = false; };
 static Ctl* g = nullptr;
 
@@ -373,7 +373,8 @@ public:
                 qErrEst[0] -= dotp * qq[0]; qErrEst[1] -= dotp * qq[1];
             }
         }
-        if (g && g->armed) g->log.push_back({'Q', s.getTime(), dontThrow, ok, s.getQ(sub)[0], s.getQ(sub)[1], 0, 0});
+        if (g && g->armed) g->log.push_back({'Q', s.getTime(), dontThrow, ok, s.getQ(sub)[0], s.getQ(sub)[1], 0, 0,
+                                             o.isOptionSet(ProjectOptions::UseInfinityNorm), o.isOptionSet(ProjectOptions::ForceProjection)});
         if (!ok) {
             res.setExitStatus(ProjectResults::FailedToConverge);
             if (!dontThrow) SimTK_THROW1(Exception::Cant, "oracle: projectQ refused");
@@ -397,7 +398,8 @@ public:
             realize(s, Stage::Velocity);
             if (uErrEst.size()) { const Real c2 = (q[0] * uErrEst[0] + q[1] * uErrEst[1]) / r2; uErrEst[0] -= c2 * q[0]; uErrEst[1] -= c2 * q[1]; }
         }
-        if (g && g->armed) g->log.push_back({'U', s.getTime(), dontThrow, ok, s.getQ(sub)[0], s.getQ(sub)[1], s.getU(sub)[0], s.getU(sub)[1]});
+        if (g && g->armed) g->log.push_back({'U', s.getTime(), dontThrow, ok, s.getQ(sub)[0], s.getQ(sub)[1], s.getU(sub)[0], s.getU(sub)[1],
+                                             o.isOptionSet(ProjectOptions::UseInfinityNorm), o.isOptionSet(ProjectOptions::ForceProjection)});
         if (!ok) {
             res.setExitStatus(ProjectResults::FailedToConverge);
             if (!dontThrow) SimTK_THROW1(Exception::Cant, "oracle: projectU refused");
@@ -432,7 +434,9 @@ static void session(vh::Rng& r, int integ /*0..3: RK family with the default att
     I.setAccuracy(std::pow(10.0, -r.range(1.0, 5.0)));
     if (r.below(2)) I.setConstraintTolerance(std::pow(10.0, -r.range(3.0, 9.0)));
     if (forced) I.setFixedStepSize(r.range(0.01, 0.2));
-    if (r.below(3) == 0) I.setProjectEveryStep(true);
+    const bool projEvery = r.below(3) == 0, infNorm = r.below(2) == 0;
+    if (projEvery) I.setProjectEveryStep(true);
+    if (infNorm) I.setUseInfinityNorm(true);
     if (projInterp == 0) I.setProjectInterpolatedStates(false);
     I.setReturnEveryInternalStep(true);      // one takeOneStep per call at most
     ctl.pFailStep = r.below(2) ? r.range(0.05, 0.4) : 0.0;
@@ -458,7 +462,7 @@ static void session(vh::Rng& r, int integ /*0..3: RK family with the default att
         L.i(1).i(forced).i(projInterp);
         if (exc) L.s("EXC"); else L.i(status);
         const bool interp = !exc && I.isStateInterpolated();
-        L.i(interp).i(nSteps).i(dErr).s("|");
+        L.i(interp).i(nSteps).i(dErr).i(infNorm).i(projEvery).s("|");
         const State* st = exc ? nullptr : &I.getState();
         for (auto& c : ctl.log) { L.s(std::string(1, c.kind)).i(c.dontThrow).i(c.ok).i(st && c.t == st->getTime()).i(c.t == I.getAdvancedTime());
                                   if (c.kind == 'U' && c.ok) okU.push_back(c); }
@@ -485,7 +489,10 @@ static void session(vh::Rng& r, int integ /*0..3: RK family with the default att
         }
         vh::Line O = vh::O("orc");
         if (exc) O.s("EXC"); else O.i(status);
-        O.s(std::string(1, prov)).i(dConv).s(std::string(1, advProv));
+        // the ProjectOptions every projectQ / projectU call of this stepTo actually received: (UseInfinityNorm, ForceProjection) per call
+        std::string optBits = "o";
+        for (auto& c : ctl.log) { optBits += char('0' + (int)c.inf); optBits += char('0' + (int)c.force); }
+        O.s(std::string(1, prov)).i(dConv).s(std::string(1, advProv)).s(optBits);
         O.emit();
         vh::D(std::string("oracle.") + (exc ? "exception" : interp ? (status == 2 ? "event_before_state" : "interpolated") : nSteps ? "step" : "nostep")
               + (forced ? ".forced" : "") + "." + std::string(1, prov));
